@@ -266,6 +266,14 @@ pub fn c04_cells(tier: Tier) -> Vec<Value> {
 
 pub fn c04_check(tier: Tier) -> Outcome {
     let mut out = Outcome::new("C04", "fault_enumeration");
+    // wall-clock parts through the real Server run alongside: k consecutive losses with timeout=1, and the bundled client
+    // behind a relay that loses one data-phase datagram
+    let lc = crate::c07_e2::loss_cells();
+    let nlc = lc.len();
+    let hl = std::thread::spawn(move || run_cells("c07_e2", lc, &crate::pool_opts(Tier::Quick)));
+    let rl = crate::c14::relay_cells("C04");
+    let nrl = rl.len();
+    let hr = std::thread::spawn(move || run_cells("c14_relay", rl, &crate::pool_opts(Tier::Quick)));
     let cells = c04_cells(tier);
     let (a, b): (Vec<Value>, Vec<Value>) = cells.into_iter().partition(|c| c["mode"] == "A");
     let (na, nb) = (a.len(), b.len());
@@ -273,7 +281,13 @@ pub fn c04_check(tier: Tier) -> Outcome {
     out.absorb(res, nb);
     let res = run_cells("modea", a, &crate::pool_opts(tier));
     out.absorb(res, na);
-    out.rule = format!("E1 Mode B: real Worker + reference peer (RFC 1350/1123/7440 state machine, 4 conformant receiver variants) + faulty network; every placement of up to F={} faults (drop, duplicate, delay-past-timeout, swap-with-next) over all datagrams of both directions, both orders of simultaneous timers (first {} quiet points), roles x windowsize 1..4 x lengths around block/window boundaries; plus k=1..5 consecutive losses of every datagram; plus Mode A words over {{next datagram, timeout}} up to 12 answers. Oracle: completion and byte identity of the receiving side whenever fewer than 6 consecutive receive attempts of the worker failed. non-trivial = executions with a distinct worker trace.", if tier == Tier::Quick { 2 } else { 3 }, modeb::MAX_TIE_POINTS);
+    if let Ok(res) = hl.join() {
+        out.absorb(res, nlc);
+    }
+    if let Ok(res) = hr.join() {
+        out.absorb(res, nrl);
+    }
+    out.rule = format!("E1 Mode B: real Worker + reference peer (RFC 1350/1123/7440 state machine, 4 conformant receiver variants) + faulty network; every placement of up to F={} faults (drop, duplicate, delay-past-timeout, swap-with-next) over all datagrams of both directions, both orders of simultaneous timers (first {} quiet points), roles x windowsize 1..4 x lengths around block/window boundaries; plus k=1..5 consecutive losses of every datagram; plus Mode A words over {{next datagram, timeout}} up to 12 answers. Oracle: completion and byte identity of the receiving side whenever fewer than 6 faults occurred. PLUS through the real Server (both port modes, wall clock): with timeout=1 acknowledged, the same datagram lost 1, 2 or 4 times in a row is survived in both directions; and the bundled client (-t 1) behind a UDP relay that loses one of the first three data-phase datagrams still completes byte-identically. non-trivial = executions with a distinct worker trace.", if tier == Tier::Quick { 2 } else { 3 }, modeb::MAX_TIE_POINTS);
     out.assumptions = vec![
         "timers fire only when no datagram is deliverable (a datagram overtaken by a timer is the delay-past-timeout fault)".into(),
         "datagrams triggered by the peer's own timer reach the worker half a timeout into its wait".into(),
@@ -303,7 +317,7 @@ pub fn c15_cells(tier: Tier) -> Vec<Value> {
                 c.fault_window = Some(if nb > 131000 { (131066, 131077) } else { (65530, 65541) });
                 // each execution replays the whole run-up (0.3 s at ws 16 ... 3 s at ws 1): budget the fault bound accordingly
                 let f: u64 = match tier {
-                    Tier::Quick => if ws == 5 { 0 } else { 1 },
+                    Tier::Quick => if ws == 5 && nb != 65537 { 0 } else { 1 },
                     Tier::Thorough => {
                         if ws == 16 && (nb == 65535 || nb == 65537) {
                             2
